@@ -836,3 +836,63 @@ Definition run_construct_volumetric (regions : option (list ospec)) (surface seg
   construct_val Volumetric
     (bind (opt_objs regions) (fun r => bind (opt_obj surface) (fun su => bind (opt_obj segment) (fun s =>
        Ok (construct_volumetric r su s))))).
+
+(* ---- region geometry: the coordinates of the SCOORD / SCOORD3D reference items ---------------------------------- *)
+(* value_types.py ScoordContentItem (base of ImageRegion) / Scoord3DContentItem (base of ImageRegion3D, items of a
+   VolumeSurface):
+     __init__ : GraphicData = graphic_data.flatten().tolist()  - the LOGICAL n x d array row by row,
+                ((c0,r0),(c1,r1),...) -> [c0; r0; c1; r1; ...], whatever the memory layout, the strides or the dtype of
+                the ndarray that carried it (those are outside the model: its input is the logical array)
+     value    : np.array(GraphicData).reshape(-1, d)
+   A coordinate is an abstract integer (the injective key of its double, as measurement values); an array is the list
+   of its rows.  The items of the tree model (`item`) do not carry GraphicData: the coordinates of the reference items
+   of a group travel in a side table keyed by the tracking identifier of the group (a modelling device - in the code
+   the SCOORD item the roi accessor returns carries its own GraphicData). *)
+Definition coords := list (list Z).
+Definition flatten_rows (a : coords) : list Z := concat a.
+Fixpoint chunks (d n : nat) (l : list Z) : coords :=
+  match n with O => [] | S n' => firstn d l :: chunks d n' (skipn d l) end.
+Definition reshape_rows (d : nat) (l : list Z) : res coords :=
+  if Nat.eqb d 0 then Err "ValueError"%string
+  else if Nat.eqb (Nat.modulo (length l) d) 0 then Ok (chunks d (Nat.div (length l) d) l)
+  else Err "ValueError"%string.
+(* what an order-'K' (memory order) flattening of a column-major array would store: column by column *)
+Definition column (j : nat) (a : coords) : list Z := map (fun r => nth j r 0) a.
+Definition flatten_cols (d : nat) (a : coords) : list Z := flat_map (fun j => column j a) (seq 0 d).
+
+(* one coordinate-bearing reference item as the constructor got it: dimension d (2: SCOORD, 3: SCOORD3D), one more
+   attribute that is stored next to the coordinates (SCOORD: Pixel Origin Interpretation 0 absent / 1 VOLUME / 2 FRAME;
+   SCOORD3D: the frame of reference UID), the n x d array *)
+Inductive gitem := GI (d : nat) (aux : Z) (a : coords).
+Definition scoord_store (a : coords) : list Z := flatten_rows a.
+(* DICOM encoding: Graphic Data (0070,0022) has VR FL (single precision) in SCOORD and in SCOORD3D items alike: each
+   coordinate comes back as `trunc x` (external: IEEE rounding to binary32; any function here) *)
+Definition gd_encode (trunc : Z -> Z) (gd : list Z) : list Z := map trunc gd.
+(* observation of one item: dimension, the extra attribute, the stored GraphicData, the array `value` returns *)
+Definition gitem_val (trunc : Z -> Z) (x : gitem) : val :=
+  let 'GI d aux a := x in
+  let gd := gd_encode trunc (scoord_store a) in
+  VL [VZ (Z.of_nat d); VZ aux; vz_list gd; vres vz_list2 (reshape_rows d gd)].
+(* dimensions of the coordinate-bearing reference items the record of a group describes, in document order *)
+Definition geom_dims (r : gref) : list nat :=
+  match r with
+  | Region2D _ _ _ => [2%nat] | Region3D _ => [3%nat]
+  | Regions rs => map (fun _ => 2%nat) rs | Surface _ n _ => repeat 3%nat n
+  | _ => []
+  end.
+Definition gi_d (x : gitem) : nat := let 'GI d _ _ := x in d.
+Definition geom_of (tbl : list (Z * list gitem)) (it : item) : list gitem :=
+  match acc_tracking_identifier it with
+  | Some t => match find (fun p => fst p =? t) tbl with Some p => snd p | None => [] end
+  | None => []
+  end.
+(* accessors AND region geometry of every group returned by the three unfiltered queries on a report built from
+   records, each with the arrays its reference items were constructed with; tbl32 = [] : report not encoded *)
+Definition run_accessors_geom (tbl32 : list (Z * Z)) (pre : list item) (ggs : list (group * list gitem))
+                              (mname ename : option Z) : val :=
+  let root := report pre (map fst ggs) in
+  let tbl := map (fun p => (g_tid (fst p), snd p)) ggs in
+  VL (map (fun k => vres (fun l => VL (map (fun it => VL [acc_val k it mname ename;
+                                                          VL (map (gitem_val (tbl_fun tbl32)) (geom_of tbl it))]) l))
+                         (query k root nofilt))
+          [Planar; Volumetric; ImageK]).
